@@ -32,6 +32,27 @@ explicit `panic` outcome here.
 namespace JP
 namespace Legacy
 
+/-- The standard library's encoder (Go 1.22 and later) spells U+0008 and U+000C as `\\b` and
+`\\f`; the v5 fork, taken from an older Go, writes `\\u0008` and `\\u000c`.  `respellBF`
+rewrites the fork's spelling into the standard library's (escape sequences are stepped
+over as units, so an escaped backslash followed by the text `u0008` is left alone). -/
+def respellBF : Nat → Bytes → Bytes
+  | 0, bs => bs
+  | _ + 1, [] => []
+  | fuel + 1, c :: cs =>
+    if c = 92 then
+      match cs with
+      | 117 :: 48 :: 48 :: 48 :: 56 :: rest => 92 :: 98 :: respellBF fuel rest
+      | 117 :: 48 :: 48 :: 48 :: 99 :: rest => 92 :: 102 :: respellBF fuel rest
+      | e :: rest => 92 :: e :: respellBF fuel rest
+      | [] => [92]
+    else c :: respellBF fuel cs
+
+/-- member names as `encoding/json` (HTML escaping on) quotes them -/
+def quoteBodyStd (k : Bytes) : Bytes :=
+  let q := quoteBody true k
+  respellBF (q.length + 1) q
+
 open Impl (Err Outcome litNull lookupLastC hasKeyC uniqueCount listSet listInsert)
 
 inductive Node where
@@ -213,7 +234,7 @@ def cstOf : Node → Cst
   | .rawNil => litNull
   | .docNil => litNull
   | .raw c => Cst.escape true c
-  | .doc obj => .obj ((sortByName (cstOfM obj)).map fun m => (quoteBody true m.1, m.2))
+  | .doc obj => .obj ((sortByName (cstOfM obj)).map fun m => (quoteBodyStd m.1, m.2))
   | .ary ns => .arr (cstOfL ns)
 def cstOfM : NMembers → List (Bytes × Cst)
   | [] => []
